@@ -8,7 +8,7 @@ def run(prop, tier, seed):
     wd = vlib.workdir(prop)
     cfg = "C23.cfg" if tier == "quick" else "C23_thorough.cfg"
     # exhaustive enumeration: nothing random, `seed` only recorded
-    cases, states, twall = ecommon.enumerate_sharded(prop, "C23.tla", cfg, 2 if tier == "quick" else 6)
+    cases, states, twall = ecommon.enumerate_sharded(prop, "C23.tla", cfg, 2 if tier == "quick" else 4)
     run_cases, obs, failed, hwall = ecommon.judge(rep, cases, wd, "try/unwrap operator")
     fset = set(failed)
     singles = [c for c in run_cases if c["pos2"] == ""]
@@ -24,9 +24,9 @@ def run(prop, tier, seed):
         "programs": len(run_cases), "disagreements_checked": len(run_cases), "evaluations": len(run_cases),
         "distinct_nontrivial": len({c["files"]["main.abra"] for c in run_cases}),
         "exhaustive": True,
-        "rule": "TLC enumerates (states = cases) operator position (40 positions; ordered pairs of 21 core positions in the thorough "
+        "rule": "TLC enumerates (states = cases) operator position (40 positions; ordered pairs of %d core positions in the thorough "
                 "tier) x ?/! x option/result x function/top level (%s); every program runs the function with succeeding and with "
-                "failing operands and prints a trace; distinct = distinct program texts (all contain the operator under test)" % cfg,
+                "failing operands and prints a trace; distinct = distinct program texts (all contain the operator under test)" % (len({c["pos2"] for c in run_cases if c["pos2"]}), cfg),
         "tlc_states": states, "tlc_wall_s": round(twall, 1), "harness_wall_s": round(hwall, 1),
         "out_of_model_discarded": len(cases) - len(run_cases),
         "positions": len(positions),
